@@ -68,10 +68,89 @@ PROPS["C01"] = {
   "assumptions": ["pending bytes and message counters fit in usize (preconditions)", "advance(n) is called with n <= pending bytes (what poll_write_vectored can return)"],
 }
 
+EN = "core/src/protocol/zmtp/engine.rs"
+KANI["vk_engine_more_frames"] = {
+  "module": EN, "file": "kani/engine.rs", "props": ["C02", "C07"], "kind": "witness", "bound": "replay-only (CBMC cannot explore the engine)", "timeout": 300,
+  "what": "n MORE frames into a real engine in Data phase: no panic; delivered whole or PeerError+Closed", "pairs_fn": ["ZmtpEngine::process_data"],
+}
+KANI["vk_engine_v2_downgrade"] = {
+  "module": EN, "file": "kani/engine.rs", "props": ["C06"], "kind": "witness", "bound": "replay-only", "timeout": 300,
+  "what": "PLAIN-configured engine fed a ZMTP/2.0 greeting: never HandshakeComplete / DeliverMessage", "pairs_fn": ["ZmtpEngine::process_greeting"],
+}
+KANI["vk_engine_traffic_keeps_alive"] = {
+  "module": EN, "file": "kani/engine.rs", "props": ["C19"], "kind": "witness", "bound": "replay-only", "timeout": 300,
+  "what": "PING outstanding + inbound data frame + HEARTBEAT_TIMEOUT elapsed: on_tick must not close", "pairs_fn": [],
+}
+
+ENGINE_TRUSTED = COMMON_TRUSTED + [
+  "prelude/framebatch.rs: FrameBatch as Seq<Msg> (proved for the real FrameBatch in unit framebatch)",
+  "prelude/engine_env.rs: Mechanism / ISecureFramer as abstract traits with ghost functions (kind, complete, origin_kind, origin_complete, read_log, would_block) and an ASSUMED termination measure `budget`; "
+  "ZmtpCommand::parse/create_ping/create_pong, ZmtpGreeting::decode, encode_v3_tail, negotiate_security_mechanism (returns only locally enabled mechanisms; NULL only if !security_enabled), "
+  "validate_v2_compatibility, emit-side helpers as contract stand-ins; Instant/Duration as nanoseconds with saturating duration_since; Instant::now() arbitrary",
+  "ZmtpEngineConfig.security_enabled is true whenever PLAIN/CURVE/Noise is configured (From<&SocketOptions> in options.rs, not under contract)",
+]
+
+PROPS["C02"] = {
+  "units": ["framebatch", "engine"],
+  "kani_quick": [], "kani_thorough": [],
+  "claim": "Receiver side, proved unbounded on the verbatim code: ZmtpEngine::process_data delivers only complete messages (MORE on all but the last frame), and delivered frames + the message in progress equal, in order, "
+           "the data frames the framer returned (nothing dropped, duplicated, reordered or merged across calls); a message of more than 255 frames closes the connection with PeerError instead of panicking and nothing truncated is delivered. "
+           "The real FrameBatch (push/pop/insert/remove/index/len/is_empty/demote) is proved against its Seq<Msg> view with the derived capacity preconditions (len < 255, with_capacity <= 255).",
+  "level_note": "recv()/recv_multipart() stash handling in AnonymousIngressEngine, socket-level interleaving with other peers and the sender-side MORE normalisation loops (iter_mut().enumerate(): outside Verus) are not covered. "
+                "FrameBatch::from(Vec) / with_capacity beyond 255 panic by design of the public API: derived preconditions, see DESIGN.md findings.",
+  "technique": "contract-based deductive verification (Verus; engine invariant + ghost read log of the abstract framer; data-structure view for FrameBatch)",
+  "trusted_base": ENGINE_TRUSTED + ["prelude/vecu8.rs: assumed contract of xs_foundation VecU8 (panic conditions as preconditions)"],
+  "assumptions": ["termination of the read loop relative to the assumed framer measure"],
+}
+PROPS["C04"] = {
+  "units": ["engine", "framer", "c03lem", "dec"],
+  "kani_quick": [], "kani_thorough": [],
+  "claim": "Engine level, proved unbounded: (1) the decoders consume nothing and change no state on an incomplete frame, and the 'append; decode until None' loop equals the spec function drain(), which lemma_cut_independent / lemma_any_segmentation "
+           "prove independent of how the byte stream is cut into reads; (2) grouping into messages carries the partial message across calls (process_data contract), so deliveries depend on the frame sequence only; "
+           "(3) every handler that ends in the Data phase (process_ready, process_v2_identity, process_greeting, on_network_bytes) has drained the accumulator in the same call: frames that arrive with the last handshake bytes are delivered in that output, not left behind.",
+  "level_note": "What the session actor does with those DeliverMessage actions during the handshake phase (actor.rs apply_engine_output_handshake) is outside the units; io_uring handler not covered. The abstract framer's would_block ghost predicate is tied to real code only for NullFramer (dec_step).",
+  "technique": "contract-based deductive verification (Verus) + pure lemmas over the contract spec functions",
+  "trusted_base": ENGINE_TRUSTED,
+  "assumptions": ["transport delivers bytes in order (TCP/IPC)"],
+}
+PROPS["C06"] = {
+  "units": ["engine"],
+  "kani_quick": [], "kani_thorough": [],
+  "claim": "Proved unbounded for every peer byte stream, every cut, either role, any ALLOW_ZMTP2: every phase handler of ZmtpEngine and the public entry point on_network_bytes preserve the engine invariant inv() and emit HandshakeComplete / DeliverMessage "
+           "only if auth_ok(): the framer in use was produced (into_framer) by a mechanism that reported is_complete() and that the local configuration enables (NULL only when no security is configured), or the session is ZMTP/2.0 and no security is configured. "
+           "The Ready phase is entered only on the mechanism's own completion report; authentication is never lost; nothing is sent by on_app_message before the Data phase.",
+  "level_note": "Relative to the abstract Mechanism contract: that PLAIN/CURVE/Noise report is_complete() only after valid credentials/keys is the mechanisms' own obligation (PLAIN: unit plain when built; CURVE/Noise cryptography: not applicable) and "
+                "negotiate_security_mechanism's contract is assumed here.",
+  "technique": "contract-based deductive verification (Verus; inductive engine invariant over extracted handlers, abstract trait objects with ghost provenance)",
+  "trusted_base": ENGINE_TRUSTED,
+  "assumptions": ["the attacker does not know the credentials/keys (cryptography outside contracts)"],
+}
+PROPS["C07"] = {
+  "units": ["dec", "framer", "engine", "framebatch"],
+  "kani_quick": [], "kani_thorough": ["vk_peek_frame_len"],
+  "claim": "Per-function totality, proved for ALL inputs: the four ZMTP decoders never overflow/index out of bounds, reject a frame of limit+1 bytes and accept one of exactly the limit (Err iff oversize), and return None without consuming or growing anything for an incomplete frame; "
+           "every Verus-generated safety obligation (arithmetic, indices, slices, callee preconditions = documented panic conditions of bytes/VecU8) of the engine handlers is discharged, every decode error becomes PeerError + phase Closed, a closed engine stays closed.",
+  "level_note": "Not covered: handshake timeout pacing, connection-slot release, 'socket and other connections keep working' (actor/system level), CURVE/Noise metadata parsers, READY property parser (unit command when built), io_uring backend.",
+  "technique": "contract-based deductive verification (Verus on extracted real functions); Kani complete harness for the header path as cross-check",
+  "trusted_base": ENGINE_TRUSTED,
+  "assumptions": ["allocation failure and stack overflow are out of scope"],
+}
+PROPS["C19"] = {
+  "units": ["engine", "egress"],
+  "kani_quick": [], "kani_thorough": [],
+  "claim": "Proved for all (IVL, TIMEOUT, now, last_activity, last_ping, waiting) on the verbatim on_tick/process_data: no heartbeat outside the Data phase or on ZMTP/2.0; a PING goes out only if none is outstanding and at least IVL elapsed since the last activity, and is sent at the first tick where that holds; "
+           "the connection is closed by on_tick only when a PING has been outstanding for at least TIMEOUT; every received PING is answered by exactly one PONG with the same context bytes, in order; any inbound frame clears the outstanding-PING state (traffic keeps the connection alive). "
+           "EgressBuffer::push_priority puts control frames ahead of queued data but only at a chunk boundary (after a partially written chunk).",
+  "level_note": "The session actor's timers (tick period, pong deadline future) and the io_uring backend are not under contract; 'no later than two intervals' follows from the per-tick clause under the assumption that the actor ticks every IVL. PING/PONG bypass the active (encrypted) framer: see DESIGN.md findings.",
+  "technique": "contract-based deductive verification (Verus; abstract clock in nanoseconds)",
+  "trusted_base": ENGINE_TRUSTED,
+  "assumptions": ["the actor calls on_tick at least once per HEARTBEAT_IVL"],
+}
+
 NOT_BUILT = "check not built yet in this revision (planned, see DESIGN.md section 9)"
 NOT_APPLICABLE = {
-  "C02": NOT_BUILT, "C04": NOT_BUILT, "C05": NOT_BUILT, "C06": NOT_BUILT, "C07": NOT_BUILT,
-  "C09": NOT_BUILT, "C10": NOT_BUILT, "C11": NOT_BUILT, "C13": NOT_BUILT, "C14": NOT_BUILT, "C17": NOT_BUILT, "C19": NOT_BUILT,
+ "C05": NOT_BUILT, 
+  "C09": NOT_BUILT, "C10": NOT_BUILT, "C11": NOT_BUILT, "C13": NOT_BUILT, "C14": NOT_BUILT, "C17": NOT_BUILT, 
   "C08": "lost wake-ups are an invariant over interleavings of individual atomic/channel steps plus a liveness claim; Kani has no threads and Verus would need its own atomic/permission types, i.e. a re-implementation (a model), not the code that runs (DESIGN.md section 6)",
   "C12": "SubscriptionTrie is Arc<RwLock<TrieNode>> nodes with HashMap children and an AtomicUsize: no abstract view without rewriting it (Verus), parking_lot crashes kani-compiler 0.68; non-blocking fan-out is a schedule property",
   "C15": "the deciding state (bytes framed but unwritten in another actor, kernel buffers, the close deadline) spans actors and the OS; no contract over one function expresses 'accepted messages are transmitted within LINGER'",
